@@ -12,6 +12,7 @@ import (
 
 	"github.com/bufbuild/protocompile"
 	"google.golang.org/protobuf/proto"
+	"google.golang.org/protobuf/reflect/protoreflect"
 	"google.golang.org/protobuf/types/descriptorpb"
 	"pgregory.net/rapid"
 
@@ -158,7 +159,7 @@ func c03Load() (map[string]*c03Golden, error) {
 				if len(loc.Path) == 0 {
 					// the file's own span runs from the first to the last token
 					s, ok1, e, ok2 = 0, true, len(g.sig)-1, true
-					if !(sl == firstOf(c03Pos(g.src, g.toks[g.sig[0]].Off)) ) {
+					if !(sl == firstOf(c03Pos(g.src, g.toks[g.sig[0]].Off))) {
 						ok1 = false
 					}
 				}
@@ -185,6 +186,8 @@ type c03Case struct {
 	File    string
 	Spaces  []string // replacement for every whitespace token of the golden source, in order
 	Inserts []int    // indices (into the golden's locations) before whose leading comment block a detached comment is inserted
+	Splits  []int    // indices (into the golden's tokens) of one-line block comments whose closing */ is moved to a new line
+	Swap    []int    // empty, or {i, j}: golden location indices of two adjacent sibling declarations to exchange (see c03Swappable)
 }
 
 // c03Apply rebuilds the source with the replacement whitespace and the inserted detached comments, and returns the
@@ -227,14 +230,56 @@ func c03Apply(g *c03Golden, c c03Case) (string, []int, map[int]string, error) {
 		insertBefore[j] = "\n//" + text + "\n\n"
 		added[li] = text + "\n"
 	}
+	split := map[int]bool{}
+	for _, ti := range c.Splits {
+		if ti >= 0 && ti < len(g.toks) && c03Splittable(g.toks[ti]) {
+			split[ti] = true
+		}
+	}
 	var sb strings.Builder
 	newOff := make([]int, len(g.toks))
-	si := 0
+	// the k-th whitespace token keeps its replacement wherever it is emitted
+	spaceIdx := make([]int, len(g.toks))
+	nsp := 0
 	for i, tk := range g.toks {
+		if tk.Kind == ref.Space {
+			spaceIdx[i] = nsp
+			nsp++
+		}
+	}
+	order := make([]int, 0, len(g.toks))
+	if sw, ok := c03SwapPlan(g, c); ok {
+		for i := 0; i < sw.a1; i++ {
+			order = append(order, i)
+		}
+		for i := sw.a2; i <= sw.b2; i++ {
+			order = append(order, i)
+		}
+		for i := sw.b1 + 1; i < sw.a2; i++ {
+			order = append(order, i)
+		}
+		for i := sw.a1; i <= sw.b1; i++ {
+			order = append(order, i)
+		}
+		for i := sw.b2 + 1; i < len(g.toks); i++ {
+			order = append(order, i)
+		}
+	} else {
+		for i := range g.toks {
+			order = append(order, i)
+		}
+	}
+	for _, i := range order {
+		tk := g.toks[i]
+		si := spaceIdx[i]
 		if ins, ok := insertBefore[i]; ok {
 			sb.WriteString(ins)
 		}
 		newOff[i] = sb.Len()
+		if split[i] {
+			sb.WriteString(tk.Text[:len(tk.Text)-2] + "\n*/")
+			continue
+		}
 		if tk.Kind == ref.Space {
 			if si < len(c.Spaces) {
 				// keep the line structure: same number of newlines
@@ -246,12 +291,258 @@ func c03Apply(g *c03Golden, c c03Case) (string, []int, map[int]string, error) {
 			} else {
 				sb.WriteString(tk.Text)
 			}
-			si++
 			continue
 		}
 		sb.WriteString(tk.Text)
 	}
 	return sb.String(), newOff, added, nil
+}
+
+// c03LeadStart walks back from token index first over the comment block attached to it (comments and whitespace
+// without a blank line) and returns the index of the block's first token (first itself if there is none).
+func c03LeadStart(g *c03Golden, first int) int {
+	j := first
+	for j-1 >= 0 {
+		p := g.toks[j-1]
+		if p.Kind == ref.Space {
+			if strings.Count(p.Text, "\n") >= 2 || (strings.Count(p.Text, "\n") == 1 && j-2 >= 0 && g.toks[j-2].Kind == ref.LineComment) {
+				break
+			}
+			j--
+			continue
+		}
+		if p.Kind == ref.LineComment || p.Kind == ref.BlockComment {
+			j--
+			continue
+		}
+		break
+	}
+	// the block starts with a comment, not with whitespace
+	for j < first && g.toks[j].Kind == ref.Space {
+		j++
+	}
+	return j
+}
+
+type c03SwapRegion struct {
+	i, n1, j, n2   int // location blocks [i, i+n1) and [j, j+n2), j == i+n1
+	a1, b1, a2, b2 int // token ranges (indices into toks) of the two declarations
+}
+
+// c03Block: the locations that lie inside location li's token range and follow it directly in the list.
+func c03Block(g *c03Golden, li int) int {
+	n := 1
+	for li+n < len(g.locs) && g.startTok[li+n] >= g.startTok[li] && g.endTok[li+n] <= g.endTok[li] {
+		n++
+	}
+	return n
+}
+
+// c03SwapPlan validates c.Swap: two adjacent sibling declarations (statements ending in ; or }, the first one
+// preceded by ; { or }), with nothing but whitespace from the token before the first to the token after the second,
+// whose locations form two consecutive blocks of the list and are of different kinds under their common parent (so
+// that no index in any path changes when they trade places). Not the last declaration of the file.
+func c03SwapPlan(g *c03Golden, c c03Case) (c03SwapRegion, bool) {
+	var z c03SwapRegion
+	if len(c.Swap) != 2 {
+		return z, false
+	}
+	i, j := c.Swap[0], c.Swap[1]
+	if i <= 0 || j <= i || j >= len(g.locs) {
+		return z, false
+	}
+	n1, n2 := c03Block(g, i), c03Block(g, j)
+	if j != i+n1 {
+		return z, false
+	}
+	s1, e1, s2, e2 := g.startTok[i], g.endTok[i], g.startTok[j], g.endTok[j]
+	if s2 != e1+1 || s1 == 0 || e2 >= len(g.sig)-1 {
+		return z, false
+	}
+	// every earlier location that covers one of the two declarations must cover both (be an enclosing element):
+	// otherwise i is not the first location of its declaration, or the pair straddles a scope
+	for k := 0; k < i; k++ {
+		c1 := g.startTok[k] <= s1 && g.endTok[k] >= e1
+		c2 := g.startTok[k] <= s2 && g.endTok[k] >= e2
+		if c1 != c2 {
+			return z, false
+		}
+	}
+	text := func(k int) string { return g.toks[g.sig[k]].Text }
+	endsDecl := func(k int) bool { return text(k) == ";" || text(k) == "}" }
+	if !endsDecl(e1) || !endsDecl(e2) || !(text(s1-1) == ";" || text(s1-1) == "{" || text(s1-1) == "}") {
+		return z, false
+	}
+	// a { ... } that is a value (option literal) is not a declaration
+	if text(e1) == "}" && text(s1) == "{" || text(e2) == "}" && text(s2) == "{" {
+		return z, false
+	}
+	// comments: only the leading comment block attached to either declaration (it travels with it), and only when
+	// protoc's output says that this is what the block is
+	l1, l2 := c03LeadStart(g, g.sig[s1]), c03LeadStart(g, g.sig[s2])
+	for k := g.sig[s1-1] + 1; k < g.sig[e2+1]; k++ {
+		if g.toks[k].Kind == ref.LineComment || g.toks[k].Kind == ref.BlockComment {
+			if !(k >= l1 && k < g.sig[s1]) && !(k >= l2 && k < g.sig[s2]) {
+				return z, false
+			}
+		}
+	}
+	if l1 <= g.sig[s1-1] || l2 <= g.sig[e1] {
+		return z, false
+	}
+	// protoc's output must agree about what those blocks are: exactly one location of the declaration (one that
+	// spans the whole declaration - for an option statement it is the second one) carries a leading comment, and
+	// nothing else in the two blocks carries any comment
+	lead1, lead2 := 0, 0
+	for k := i; k < j+n2; k++ {
+		if g.locs[k].TrailingComments != nil || len(g.locs[k].LeadingDetachedComments) > 0 {
+			return z, false
+		}
+		if g.locs[k].LeadingComments != nil {
+			switch {
+			case k < j && g.startTok[k] == s1 && g.endTok[k] == e1:
+				lead1++
+			case k >= j && g.startTok[k] == s2 && g.endTok[k] == e2:
+				lead2++
+			default:
+				return z, false
+			}
+		}
+	}
+	if (lead1 == 1) != (l1 < g.sig[s1]) || (lead2 == 1) != (l2 < g.sig[s2]) || lead1 > 1 || lead2 > 1 {
+		return z, false
+	}
+	// a travelling comment block must start its line (a comment that shares the previous token's line is that
+	// token's trailing comment)
+	startsLine := func(tokIdx int) bool {
+		before := g.src[:g.toks[tokIdx].Off]
+		return strings.TrimRight(before, " \t") == "" || strings.HasSuffix(strings.TrimRight(before, " \t"), "\n")
+	}
+	if l1 < g.sig[s1] && !startsLine(l1) || l2 < g.sig[s2] && !startsLine(l2) {
+		return z, false
+	}
+	// common parent and disjoint kinds
+	p1, p2 := g.locs[i].Path, g.locs[j].Path
+	cp := 0
+	for cp < len(p1) && cp < len(p2) && p1[cp] == p2[cp] {
+		cp++
+	}
+	if cp >= len(p1) || cp >= len(p2) || !c03FieldNumberAt(p1, cp) || !c03FieldNumberAt(p2, cp) {
+		return z, false // they differ in an index (two elements of one repeated field), not in a kind
+	}
+	kinds := func(from, n int) (map[int32]bool, bool) {
+		out := map[int32]bool{}
+		for k := from; k < from+n; k++ {
+			pk := g.locs[k].Path
+			if len(pk) <= cp {
+				return nil, false
+			}
+			for x := 0; x < cp; x++ {
+				if pk[x] != p1[x] {
+					return nil, false
+				}
+			}
+			out[pk[cp]] = true
+		}
+		return out, true
+	}
+	k1, ok1 := kinds(i, n1)
+	k2, ok2 := kinds(j, n2)
+	if !ok1 || !ok2 {
+		return z, false
+	}
+	for k := range k1 {
+		if k2[k] {
+			return z, false
+		}
+	}
+	// no other location may start or end inside the region without belonging to a block (checked by c03Block's
+	// contiguity: anything after block 2 must start after e2)
+	if j+n2 < len(g.locs) && g.startTok[j+n2] <= e2 {
+		return z, false
+	}
+	return c03SwapRegion{i: i, n1: n1, j: j, n2: n2, a1: l1, b1: g.sig[e1], a2: l2, b2: g.sig[e2]}, true
+}
+
+// c03FieldNumberAt: is element pos of the location path a field number (rather than an index into a repeated
+// field), reading the path against FileDescriptorProto's own schema?
+func c03FieldNumberAt(path []int32, pos int) bool {
+	md := (&descriptorpb.FileDescriptorProto{}).ProtoReflect().Descriptor()
+	for k := 0; k < len(path); {
+		if k == pos {
+			return true
+		}
+		if md == nil {
+			return false
+		}
+		fd := md.Fields().ByNumber(protoreflect.FieldNumber(path[k]))
+		if fd == nil {
+			return false // an extension (custom option): nothing below it is read here
+		}
+		k++
+		if fd.IsList() {
+			if k == pos {
+				return false
+			}
+			k++
+		}
+		md = fd.Message()
+	}
+	return false
+}
+
+// c03Swappable lists every valid {i, j} of a golden file.
+func c03Swappable(g *c03Golden) [][]int {
+	var out [][]int
+	for i := 1; i < len(g.locs); i++ {
+		j := i + c03Block(g, i)
+		if j < len(g.locs) {
+			if _, ok := c03SwapPlan(g, c03Case{Swap: []int{i, j}}); ok {
+				out = append(out, []int{i, j})
+			}
+		}
+	}
+	return out
+}
+
+// c03Splittable: a block comment written on one line.
+func c03Splittable(tk ref.Token) bool {
+	return tk.Kind == ref.BlockComment && !strings.Contains(tk.Text, "\n") && strings.HasSuffix(tk.Text, "*/") && len(tk.Text) >= 4
+}
+
+// c03SplitExpect rewrites the expected comments for the split block comments: the comment whose text is the
+// inside of the one-line block comment gains the line end that now precedes its closing */; a comment that
+// protoc attached to nothing stays attached to nothing. Returns how many of the splits are of each kind.
+func c03SplitExpect(g *c03Golden, c c03Case, want []*descriptorpb.SourceCodeInfo_Location) (attached, dropped int) {
+	for _, ti := range c.Splits {
+		if ti < 0 || ti >= len(g.toks) || !c03Splittable(g.toks[ti]) {
+			continue
+		}
+		inner := g.toks[ti].Text[2 : len(g.toks[ti].Text)-2]
+		var hits []*string
+		for _, w := range want {
+			if w.LeadingComments != nil && *w.LeadingComments == inner {
+				hits = append(hits, w.LeadingComments)
+			}
+			if w.TrailingComments != nil && *w.TrailingComments == inner {
+				hits = append(hits, w.TrailingComments)
+			}
+			for k := range w.LeadingDetachedComments {
+				if w.LeadingDetachedComments[k] == inner {
+					hits = append(hits, &w.LeadingDetachedComments[k])
+				}
+			}
+		}
+		if len(hits) == 0 {
+			dropped++
+			continue
+		}
+		for _, h := range hits {
+			*h = inner + "\n"
+		}
+		attached++
+	}
+	return attached, dropped
 }
 
 func textBefore(g *c03Golden, tokIdx int) string {
@@ -280,6 +571,16 @@ func c03Check(c c03Case, r *ev.Rec) error {
 			w.LeadingDetachedComments = append(w.LeadingDetachedComments, d)
 		}
 		want[i] = w
+	}
+	nAttached, nDropped := c03SplitExpect(g, c, want)
+	swapped := false
+	if sw, ok := c03SwapPlan(g, c); ok {
+		swapped = true
+		re := append([]*descriptorpb.SourceCodeInfo_Location{}, want[:sw.i]...)
+		re = append(re, want[sw.j:sw.j+sw.n2]...)
+		re = append(re, want[sw.i:sw.i+sw.n1]...)
+		re = append(re, want[sw.j+sw.n2:]...)
+		want = re
 	}
 	// compile the perturbed file within its workspace
 	files := map[string]string{}
@@ -317,8 +618,13 @@ func c03Check(c c03Case, r *ev.Rec) error {
 			si++
 		}
 	}
-	r.Case(ev.JSONFP(c), changed >= 3 && strings.Contains(strings.Join(c.Spaces, ""), "\t"), "file="+c.File, fmt.Sprintf("detached-inserted=%d", min(len(added), 5)))
+	r.Case(ev.JSONFP(c), changed >= 3 && strings.Contains(strings.Join(c.Spaces, ""), "\t") || nAttached+nDropped > 0 || swapped, "file="+c.File, fmt.Sprintf("detached-inserted=%d", min(len(added), 5)))
 	r.LabelN("locations-compared", len(want))
+	if swapped {
+		r.Label("declarations-swapped")
+	}
+	r.LabelN("block-comments-split/attached", nAttached)
+	r.LabelN("block-comments-split/attached-to-nothing", nDropped)
 	r.LabelN("whitespace-tokens-changed", changed)
 	if len(added) > 0 && r.WantSample() {
 		r.Sample(map[string]any{"file": c.File, "whitespace_changed": changed, "detached_inserted": len(added)})
@@ -371,6 +677,18 @@ func c03Gen(t *rapid.T) c03Case {
 	for k := 0; k < nins && len(withLead) > 0; k++ {
 		c.Inserts = append(c.Inserts, gen.Pick(t, withLead, "insertloc"))
 	}
+	var splittable []int
+	for i, tk := range g.toks {
+		if c03Splittable(tk) {
+			splittable = append(splittable, i)
+		}
+	}
+	if sws := c03Swappable(g); len(sws) > 0 && gen.Pct(t, 40, "swap") {
+		c.Swap = gen.Pick(t, sws, "swap-pair")
+	}
+	for k := gen.Pick(t, []int{0, 0, 1, 3}, "nsplits"); k > 0 && len(splittable) > 0; k-- {
+		c.Splits = append(c.Splits, gen.Pick(t, splittable, "split"))
+	}
 	return c
 }
 
@@ -389,6 +707,46 @@ func TestC03_Calibration(t *testing.T) {
 
 func TestC03_Respaced(t *testing.T) {
 	ev.Run(t, ev.Spec[c03Case]{ID: "C03", Name: "Respaced", Quick: 300, Thorough: 15000,
-		Rule: "the three source files of the real-protoc golden source_info.protoset with (a) the horizontal whitespace of a generated share of their whitespace runs re-drawn (indentation and gaps of spaces and tabs; newlines, hence line adjacency and blank lines, unchanged) and (b) 0-4 detached comments (a // line with a blank line on both sides) inserted in front of the leading comment block of declarations whose golden location has a leading comment; oracle: the same locations in the same order with the same paths and comments as protoc's golden output, the inserted comments appended to leading_detached_comments of exactly those locations, and every span recomputed from the tokens it started and ended on in the golden (tab to the next multiple of 8); non-trivial = >=3 whitespace runs changed and a tab introduced; distinct by case",
+		Rule: "the three source files of the real-protoc golden source_info.protoset with (a) the horizontal whitespace of a generated share of their whitespace runs re-drawn (indentation and gaps of spaces and tabs; newlines, hence line adjacency and blank lines, unchanged) and (b) 0-4 detached comments (a // line with a blank line on both sides) inserted in front of the leading comment block of declarations whose golden location has a leading comment and (c) 0-3 one-line block comments made multi-line as in SplitEach and (d) in 40% one pair of declarations exchanged as in SwapEach; oracle: the same locations in the same order with the same paths and comments as protoc's golden output, the inserted comments appended to leading_detached_comments of exactly those locations, and every span recomputed from the tokens it started and ended on in the golden (tab to the next multiple of 8); non-trivial = >=3 whitespace runs changed and a tab introduced; distinct by case",
 		Gen:  c03Gen, Check: c03Check})
+}
+
+// TestC03_SplitEach: every one-line block comment of the golden sources, split one at a time.
+func TestC03_SplitEach(t *testing.T) {
+	ev.RunEnum(t, ev.Spec[c03Case]{ID: "C03", Name: "SplitEach",
+		Rule:  "for EVERY one-line block comment of the three golden sources, one at a time: its closing */ is moved to a line of its own, which makes it a multi-line comment and moves every later token down one line, while what precedes its start and what follows its end stay the same; oracle: protoc's golden output with the comment's text gaining that line end where protoc attached it (leading, trailing or detached), a comment protoc attached to nothing (it starts on the previous token's line and the next token follows its end on the same line) still attached to nothing, and all spans recomputed; non-trivial = all",
+		Check: c03Check}, true, func(yield func(c03Case) bool) {
+		data, err := c03Load()
+		if err != nil {
+			t.Fatalf("%v", err)
+		}
+		for _, f := range c03Files {
+			for ti, tk := range data[f].toks {
+				if c03Splittable(tk) {
+					if !yield(c03Case{File: f, Splits: []int{ti}}) {
+						return
+					}
+				}
+			}
+		}
+	})
+}
+
+// TestC03_SwapEach: every pair of adjacent sibling declarations of different kinds, exchanged one pair at a time.
+func TestC03_SwapEach(t *testing.T) {
+	ev.RunEnum(t, ev.Spec[c03Case]{ID: "C03", Name: "SwapEach",
+		Rule:  "for EVERY pair of adjacent sibling declarations of the three golden sources that are of different kinds under their parent (a field and a nested message, an option and a field - also inside a oneof -, an enum and an extension range, ...), have no comment between the token before the first and the token after the second other than a leading comment block attached to either (which travels with its declaration), one pair at a time: the two declarations trade places in the source; no index of any path changes, so the oracle is protoc's golden output with the two blocks of locations exchanged and every span recomputed; non-trivial = all",
+		Check: c03Check}, true, func(yield func(c03Case) bool) {
+		data, err := c03Load()
+		if err != nil {
+			t.Fatalf("%v", err)
+		}
+		for _, f := range c03Files {
+			for _, sw := range c03Swappable(data[f]) {
+				if !yield(c03Case{File: f, Swap: sw}) {
+					return
+				}
+			}
+		}
+	})
 }
